@@ -54,6 +54,8 @@ def main(argv=None):
         job.run_verus()
     if not a.no_kani and spec.get("kani", True):
         job.run_kani()
+    if "aux" in spec and not a.only:
+        spec["aux"](job)
     return conclude(job, spec, a, t0)
 
 
